@@ -22,10 +22,8 @@ ROW = re.compile(r"^\s*(?:(\d+):)?\s*(-->)?\s*(>>)?\s*(\d+)\s+(?:\|[0-9a-f ]+\|\
 
 
 def hx(s):
-    if isinstance(s, bytes):
-        s = s.decode("utf-8", "backslashreplace")     # PyPy 3.2 identifiers come back as bytes
-    elif not isinstance(s, str):
-        s = str(s)
+    if not isinstance(s, str):
+        s = str(s)          # PyPy 3.2 identifiers come back as bytes; the listing shows them with str()
     # object addresses differ between two loads of the same file: masked on both sides (DESIGN.md section 6 rule 8)
     return re.sub(r"0x[0-9a-f]+", "0x?", s).encode("utf-8", "backslashreplace").hex()
 
